@@ -569,4 +569,10 @@ theorem view_of_update {x y : Shape} {d m : Nat} (hy : WF y)
 theorem hasBatch_iff (s : Shape) : s.hasBatch = true ↔ 1 < s.batch := by
   unfold Shape.hasBatch; simp
 
+/-- `s` with minibatch size 1: the shape of one sample -/
+def oneSample (s : Shape) : Shape := { s with batch := 1 }
+
+theorem oneSample_wf {s : Shape} (h : WF s) : WF (oneSample s) :=
+  ⟨h.depth_le, h.pos, Nat.one_pos, h.vol, by show s.volume * 1 < W; rw [Nat.mul_one]; exact h.vol_lt⟩
+
 end Primitiv.MoveShape
